@@ -433,7 +433,7 @@ func (rtcmHandler *Handler) GetMessage(bitStream []byte) (*Message, error) {
 	// We have a complete message.
 
 	// Check the CRC.
-	errorCRC := CheckCRC(messageType, messageLength, bitStream)
+	errorCRC := CheckCRC(messageType, messageLength, bitStream[:expectedFrameLength])
 	if errorCRC != nil {
 		message := NewNonRTCM(bitStream)
 
